@@ -4,8 +4,8 @@
 #  3. run ./check <Cxx> against the changed tree (scratch out) and record which obligations fail
 p=$1; k=$2; WT=/tmp/seed_${p}_${k}; D=/verif/seeded/${p}-${k}
 [ -f $WT/seed_out/patch.diff ] || { echo "no seed_out/patch.diff in $WT"; exit 9; }
-sh $WT/seed_out/demo/run.sh $WT > /tmp/seed_demo_changed.log 2>&1; rc_changed=$?
-sh $WT/seed_out/demo/run.sh /repo > /tmp/seed_demo_ref.log 2>&1; rc_ref=$?
+bash $WT/seed_out/demo/run.sh $WT > /tmp/seed_demo_changed.log 2>&1; rc_changed=$?
+bash $WT/seed_out/demo/run.sh /repo > /tmp/seed_demo_ref.log 2>&1; rc_ref=$?
 echo "demo: changed tree rc=$rc_changed (want != 0), reference rc=$rc_ref (want 0)"
 /verif/tools/seedcheck.sh $WT > /tmp/seed_tests.log 2>&1; rc_tests=$?
 tail -1 /tmp/seed_tests.log
